@@ -1,0 +1,18 @@
+//! Verification hooks. Only compiled with `RUSTFLAGS="--cfg rb_verif"`.
+//! Nothing here is reachable from a normal build.
+#![allow(missing_docs)]
+
+use core::sync::atomic::{AtomicBool, Ordering};
+
+static PREFILTER_OFF: AtomicBool = AtomicBool::new(false);
+
+/// When set, every digest prefilter test answers "maybe" (true).
+pub fn set_prefilter_off(off: bool) {
+    PREFILTER_OFF.store(off, Ordering::SeqCst);
+}
+
+pub fn prefilter_off() -> bool {
+    PREFILTER_OFF.load(Ordering::SeqCst)
+}
+
+pub use super::set_digest::verif_hooks as digest;
